@@ -24,6 +24,7 @@ S["C17"] = dict(title="In-flight packet identifiers unique and bounded; excess g
     H("verifH_C17_ring", "L17.b next identifier differs from every in-flight one while fewer than 0x4000 are in flight (all wrap positions at once)"),
     H("verifH_C17_slots", "L17.d/L11.a startTx/endTx from arbitrary counter and registered keys"),
     H("verifH_C17_slotlimit", "L17.d slot exhaustion gives ErrMax without trace"),
+    H("verifH_C02_adopt", "L17.e restart: counters rebuilt for every ring position incl. windows straddling the wrap; new publish does not collide", T({"shapes":6}), T({"shapes":10}, time_sec=2400), ("adopted","adopted-twice","drained")),
     _accept, _ack],
   assumptions=_outasm,
   bounds={"quick":"maxima in classes {<0, 0, 1..3, 16383..16384, >16384} with the value free inside; W<=2 concrete in-flight entries; <= 2 pre-registered subscribe/unsubscribe slots at free identifiers","thorough":"W<=3"},
